@@ -99,7 +99,9 @@ theorem C18_range_check (r : Range) (len : Nat) :
     rangeCheck r len = DtoSpec.rfcInterval (toByteRange r) len := rangeCheck_eq r len
 
 /-- head_object: length and metadata of the most recent write. Partial — answers agree up to the ETag, which the backend
-    never returns (fs:head-without-etag); excluded: a missing key in an existing bucket (fs:head-missing-key-code) -/
+    never returns (fs:head-without-etag); a missing key in an existing bucket (`NoSuchKey`) and a missing bucket
+    (`NoSuchBucket`) are answered alike (d6f1a3c; before: fs:head-missing-key-code); excluded: a directory left behind at
+    the path (fs:leftover-directory) -/
 theorem C18_head_refines_partial (H : Hashes) (dl : Nat) {s : State} (hi : Inv s) {b k : Bytes} (hg : HeadOk s b k) :
     (step H dl s (.headObject b k)).2.core = (StoreSpec.step H (abs s) (.headObject b k)).2.core ∧
     abs (step H dl s (.headObject b k)).1 = (StoreSpec.step H (abs s) (.headObject b k)).1 ∧
@@ -269,8 +271,8 @@ def alice : Who := some [65]
 def bob : Who := some [66]
 
 /-- a realistic history inside `Good`: bucket, writes with and without metadata (also over an object that had some),
-    whole / ranged / suffix reads (suffix longer than the object, suffix of an empty object), a copy onto itself, head,
-    prefix listing with marker, copy, delete, a multipart upload driven by its owner and refused to another identity -/
+    whole / ranged / suffix reads (suffix longer than the object, suffix of an empty object), a copy onto itself, head
+    (of an object and of a key that does not exist), prefix listing with marker, copy, delete, a multipart upload driven by its owner and refused to another identity -/
 def demo : List Op := [
   .createBucket bka,
   .putObject bka kDE [1, 2, 3, 4, 5] (some [([109], [118])]) {} none,
@@ -286,6 +288,7 @@ def demo : List Op := [
   .getObject bka kDE (some (.int 7 none)),
   .copyObject bka kDE bka kDE,
   .headObject bka kDE,
+  .headObject bka kX,
   .listObjectsV2 bka (some [100, 47]) none (some kA) none,
   .copyObject bka kDE bka kDF,
   .listObjects bka none none none (some 1000),
@@ -315,8 +318,11 @@ example : (run H0 4096 {} demo).2.map Resp.core = (StoreSpec.run H0 {} demo).2.m
 example : PutOk (run H0 4096 {} (demo.take 3)).1 bka kDE := by decide
 example : GetOk (run H0 4096 {} (demo.take 3)).1 bka kDE := by decide
 example : CopyOk (run H0 4096 {} (demo.take 11)).1 bka kDE bka kDF := by decide
+/-- head_object of a key that does not exist in an existing bucket, and of a key in a bucket that does not exist -/
+example : HeadOk (run H0 4096 {} (demo.take 3)).1 bka kX := by decide
+example : HeadOk (run H0 4096 {} (demo.take 3)).1 [98, 107, 98] kX := by decide
 /-- a ranged part copy `bytes=1-3` from an existing object into the owner's upload -/
-example : UploadPartCopyOk (run H0 4096 {} (demo.take 21)).1 bka kX (some 1) 2 bka kDE
+example : UploadPartCopyOk (run H0 4096 {} (demo.take 22)).1 bka kX (some 1) 2 bka kDE
     (some [98, 121, 116, 101, 115, 61, 49, 45, 51]) := by decide
 /-- … and they do exclude the recorded deviations: a copy onto an object that has a metadata file from a source without -/
 example : ¬ CopyOk (run H0 4096 {} (demo.take 5)).1 bka kA bka kDE := by decide
